@@ -2,6 +2,10 @@ pub mod c01;
 pub mod c02;
 pub mod c03;
 pub mod c05;
+pub mod c09;
+pub mod c10;
+pub mod c11;
+pub mod wrap;
 pub mod c14;
 pub mod contract;
 pub mod cgen;
@@ -15,6 +19,9 @@ pub fn dispatch(id: &str, args: &RunArgs) -> i32 {
         "C02" => run_prop(&c02::C02, args),
         "C03" => run_prop(&c03::C03, args),
         "C05" => run_prop(&c05::C05, args),
+        "C09" => run_prop(&wrap::C09, args),
+        "C10" => run_prop(&wrap::C10, args),
+        "C11" => run_prop(&wrap::C11, args),
         "C14" => run_prop(&c14::C14, args),
         _ => {
             eprintln!("unknown property id {id}");
